@@ -249,10 +249,30 @@ CodecFails(e) ==
   IF ~On("C11") THEN {}
   ELSE IF e.dir = "enc" THEN
          \* e.bytes: input byte values, e.chars: output character codes
-         F(e.isnull = 0 /\ e.ret = Len(B64Enc(e.bytes)) /\ e.chars = B64Enc(e.bytes), "C11.enc")
+         F(e.isnull = 0 /\ e.chars = B64Enc(e.bytes), "C11.enc")
   ELSE   \* dec: e.chars is the input, e.bytes the output
          LET r == B64Dec(e.chars) IN
          F(r.any \/ (IF r.ok THEN e.isnull = 0 /\ e.ret = Len(r.bytes) /\ e.bytes = r.bytes ELSE e.isnull = 1), "C11.dec")
+
+\* batched codec calls: the inputs are regenerated from the descriptor
+Pow(b, n) == b ^ n
+BatchIn(e, i) ==
+  LET rem == e.len - Len(e.prefix)
+      base == IF e.dir = "enc" THEN 256 ELSE Len(e.alpha)
+      digit(k) == ((i - 1) \div Pow(base, rem - k)) % base
+  IN e.prefix \o [k \in 1..rem |-> IF e.dir = "enc" THEN digit(k) ELSE e.alpha[digit(k) + 1]]
+CodecBatchFails(e) ==
+  IF ~On("C11") THEN {}
+  ELSE LET rem == e.len - Len(e.prefix)
+           n == Pow(IF e.dir = "enc" THEN 256 ELSE Len(e.alpha), rem)
+       IN F(Len(e.outs) = n /\ Len(e.rets) = n /\ Len(e.nulls) = n, "C11.batch.count")
+          \cup (IF Len(e.outs) # n \/ Len(e.rets) # n \/ Len(e.nulls) # n THEN {}
+                ELSE IF e.dir = "enc"
+                THEN F(\A i \in 1..n : LET x == B64Enc(BatchIn(e, i)) IN
+                          e.nulls[i] = 0 /\ e.outs[i] = x, "C11.enc")
+                ELSE F(\A i \in 1..n : LET r == B64Dec(BatchIn(e, i)) IN
+                          r.any \/ (IF r.ok THEN e.nulls[i] = 0 /\ e.rets[i] = Len(r.bytes) /\ e.outs[i] = r.bytes
+                                    ELSE e.nulls[i] = 1), "C11.dec"))
 
 (***************************************************************************)
 (* dispatch                                                                *)
@@ -265,6 +285,7 @@ Fails(e) ==
     [] e.e = "Verify" -> VerifyFails(e)
     [] e.e = "Generate" -> GenerateFails(e)
     [] e.e = "Codec" -> CodecFails(e)
+    [] e.e = "CodecBatch" -> CodecBatchFails(e)
     [] e.e = "EndCase" -> IF Has(e, "leak") /\ Prop \in LeakProps THEN F(e.leak = 0, Prop \o ".leak") ELSE {}
     [] e.e = "End" -> IF Has(e, "leak") /\ Prop \in LeakProps THEN F(e.leak = 0, Prop \o ".leak") ELSE {}
     [] e.e = "Abort" -> {"abort." \o e.why}
